@@ -137,6 +137,11 @@ def run(ctx):
     systematic.append([{"c": "c", "o": "cB", "via": "single"}, {"c": "c", "o": "d", "via": "main1"}, {"c": "a", "o": "default", "via": "single"}])
     systematic.append([{"c": "f", "o": "default", "via": "single", "mode": "path"}, {"c": "f", "o": "default", "via": "single", "mode": "stream"},
                        {"c": "f", "o": "default", "via": "main1", "mode": "path"}])
+    # the caller's stream object handed in twice, and one the caller has already read from
+    systematic.append([{"c": "a", "o": "default", "via": "single", "mode": "stream-reused"}, {"c": "a", "o": "default", "via": "single", "mode": "stream-reused"},
+                       {"c": "a", "o": "default", "via": "single", "mode": "path"}])
+    systematic.append([{"c": "c", "o": "default", "via": "single", "mode": "stream-read"}, {"c": "c", "o": "d", "via": "single", "mode": "stream-reused"},
+                       {"c": "c", "o": "d", "via": "single", "mode": "stream-reused"}])
     for hs_ in (range(1, 9) if not ctx.thorough() else range(1, 25)):
         systematic.append([{"c": "t", "o": "d", "via": "single", "mode": "path", "hs": hs_}])
         systematic.append([{"c": "p", "o": "default", "via": "single", "mode": "stream", "hs": hs_, "perm": True}])
